@@ -21,6 +21,34 @@ CHECKS["C04"] = dict(ref="5/C04", text="Site extraction / coordinate operations 
     "alignments with leading/internal/trailing gaps, the histories are replayed on the real code and validated by TLC; larger random alignments are "
     "driven from Go and validated the same way. Re-assembly identities are checked on the specification by TLC (MC_Sites).",
     note=HEAPNOTE)
+
+CHECKS["C05"] = dict(ref="5/C05", text="The genetic codes are TLA+ constants taken from the NCBI strings; TLC computes the translation of every codon over "
+    "the residue domain (A C G T U, 11 ambiguity codes, X O, both cases, - ? . *) for the three codes (packed into one sequence per first symbol), of "
+    "every sequence of length 0..6 over {A,T,G,-} in every frame (incl. the error cases), every gap placement of a reference row for reference-guided "
+    "translation and of a protein alignment for codon threading; the histories are replayed on the real code and every event is validated by TLC. "
+    "TranslateByReference and CodonAlign are relations stating exactly the property's clauses.", note=HEAPNOTE)
+CHECKS["C10"] = dict(ref="5/C10", text="Every randomised operation is a TLA+ relation Allowed(pre, post) (row permutation, per-column multisets, bootstrap columns, "
+    "windows, ...); TLC enumerates all border arguments, the real code resolves the randomness, and TLC validates every logged outcome, accumulates the "
+    "elementary outcomes seen per (operation, arguments, instance) over >= 260 seeds and requires all of them (support), and requires equal seeds to give "
+    "equal outcomes (replay).", note=HEAPNOTE + " Support is statistical: a missing outcome on correct code has probability < 1e-30.")
+CHECKS["C12"] = dict(ref="5/C12", text="Cleaning is specified with exact rational cutoffs; TLC enumerates all 2^5 option combinations x cutoffs {0,1/4,1/3,1/2,2/3,3/4,1} x "
+    "character sets on alignments that contain EVERY column (resp. row) of height 2-3 over {A,a,N,n,X,-} side by side in both orders, nucleotide and "
+    "protein, plus ends-mode shapes; histories are replayed on the real code and validated by TLC (kept/removed partition, first/last, resulting rows).",
+    note=HEAPNOTE + " Exact ties with non-dyadic cutoffs are not judged (binary floating point).")
+CHECKS["C13"] = dict(ref="5/C13", text="Deduplicate is a TLA+ function (first occurrences, groups), Compress a relation (distinct patterns, positive weights, exact "
+    "multiplicities); TLC enumerates all small alignments / sequence sets over {A,N,-} (and X for proteins, prefixes of one another for sets) and depth-2 "
+    "histories (idempotence), replayed on the real code and validated by TLC.", note=HEAPNOTE)
+CHECKS["C14"] = dict(ref="5/C14", text="Every statistic is defined naively in TLA+ (entropy and PSSM in IEEE doubles through the F64 module); TLC enumerates alignments that "
+    "contain every column of height 2-4 over {A,C,a,N,-,.} (all tie patterns), every reference gap pattern for the mutation lists, all site indices "
+    "-1..L; the real code is run, every query is repeated, and TLC validates value, error class and determinism of every event.", note=HEAPNOTE)
+CHECKS["C15"] = dict(ref="5/C15", text="Masking is a TLA+ relation over (pre, post) (window, protection flags, replacement modes with MAJ ties left open, rare-residue rule); "
+    "TLC enumerates windows start -1..L+1 x lengths x 6 replacement arguments x 2^2 flags x reference choices x thresholds on an alignment containing "
+    "every column of height 3 over {A,C,-,N} and on all small alignments; replayed on the real code and validated by TLC.", note=HEAPNOTE)
+CHECKS["C19"] = dict(ref="5/C19", text="Every trace event carries the projection of ALL live objects; the heap machine's frame condition (objects other than the receiver, and the "
+    "receiver of read-only / copy-producing operations, are unchanged) is evaluated by TLC on every event. TLC enumerates histories 'copy or query X, then "
+    "mutate any live object' for X in clone, sub-alignment (all windows incl. (0,L)), site selection, transpose, split, unalign, every writer, statistics, "
+    "distances, pairwise alignment (incl. the failing ATG path), ORF search; a change of an unrelated object is attributed to the copy-producing operation that links them.",
+    note=HEAPNOTE + " Operations the property does not list as copy-producing (Sample, Append, Rarefy) are specified as the code behaves (they share rows).")
 NA = []
 def main():
     props = [json.loads(l)["id"] for l in open(os.path.join(V, "properties.jsonl"))]
